@@ -36,20 +36,14 @@ fn judge_source(src: &str, ctx: &mut Ctx, nontrivial: bool, pause: bool, case: &
     let tag = if cfg!(debug_assertions) { "dev" } else { "release" };
     let ast = match fmlrun::parse(src) {
         Ok(a) => a,
-        Err(_) => {
-            ctx.exclude("does-not-parse");
-            return Ok(());
-        }
+        Err(_) => return refused_alike(src, ctx, "parse", case),
     };
     // ---- in-process: the same AST compiled 5 times (every HashMap::new() draws a new RandomState)
     let mut images: Vec<Vec<u8>> = vec![];
     for _ in 0..5 {
         match fmlrun::compile(&ast).and_then(|p| fmlrun::serialize(&p)) {
             Ok(b) => images.push(b),
-            Err(_) => {
-                ctx.exclude("does-not-compile");
-                return Ok(());
-            }
+            Err(_) => return refused_alike(src, ctx, "compile", case),
         }
     }
     if images.iter().any(|b| b != &images[0]) {
@@ -166,6 +160,42 @@ fn judge_source(src: &str, ctx: &mut Ctx, nontrivial: bool, pause: bool, case: &
     Ok(())
 }
 
+/// The engine (one build profile, in-process) refuses `src` before running it.  Being refused is
+/// fine; being refused by one build and accepted by another, or in one run and not the next, is
+/// not: both binaries must refuse it too, every time, without output and without a signal.
+fn refused_alike(src: &str, ctx: &mut Ctx, stage: &str, case: &dyn Fn() -> Value) -> Judged {
+    let tag = if cfg!(debug_assertions) { "dev" } else { "release" };
+    let res: Result<(), Violation> = SCRATCH.with(|s| {
+        let mut s = s.borrow_mut();
+        if s.is_none() {
+            *s = Some(cli::Scratch::new("C11", tag));
+        }
+        let sc = s.as_mut().unwrap();
+        let fsrc = sc.file("refused.fml");
+        std::fs::write(&fsrc, src).unwrap();
+        let herr = |e: String| Violation::new("harness-error", e, json!({}));
+        for (bin, btag) in [(cli::fml_release(), "release"), (cli::fml_debug(), "debug"), (cli::fml_release(), "release")].iter() {
+            let o = cli::run_fml(bin, &["run", fsrc.to_str().unwrap()]).map_err(|e| herr(e.to_string()))?;
+            if o.status.success() || matches!(o.status, cli::Status::Signal(_)) || !o.out_str().is_empty() {
+                return Err(Violation::new(
+                    "refusal-differs",
+                    format!("the {} engine refuses the program at the {} stage, but `fml run` ({} binary) ends with status {:?} and stdout {:?}", tag, stage, btag, o.status, o.out_str().chars().take(200).collect::<String>()),
+                    case(),
+                )
+                .with("where", "processes")
+                .with("stage", stage));
+            }
+        }
+        Ok(())
+    });
+    if let Err(v) = res {
+        return ctx.settle(v);
+    }
+    ctx.label(&format!("refused-alike:{}", stage));
+    ctx.label(&format!("engine:{}", tag));
+    Ok(())
+}
+
 impl Property for C11 {
     fn id(&self) -> &'static str {
         "C11"
@@ -198,6 +228,18 @@ impl Property for C11 {
                     v.detail = format!("[in-repo program {}] {}", f.display(), v.detail);
                     out.push(v);
                 }
+            }
+        }
+        // programs that sit on the widths of the bytecode format: accepted or refused, but alike
+        for (i, (name, src)) in crate::gen::limits::programs().into_iter().enumerate() {
+            if !ctx.shard_mine(i) {
+                continue;
+            }
+            ctx.label("limit-program");
+            let case = || json!({"limit_program": name, "source": src});
+            if let Err(mut v) = judge_source(&src, ctx, true, false, &case) {
+                v.detail = format!("[limit program {}] {}", name, v.detail);
+                out.push(v);
             }
         }
         out
